@@ -360,9 +360,10 @@ class DataFormat(object):
                 )
             self.item_delimiter = item_delimiter
         elif name == KEY_LINE_DELIMITER:
-            try:
-                self.line_delimiter = _TEXT_TO_LINE_DELIMITER_MAP[value.lower()]
-            except KeyError:
+            line_delimiter_text = value.lower()
+            if line_delimiter_text in self._VALID_LINE_DELIMITER_TEXTS:
+                self.line_delimiter = _TEXT_TO_LINE_DELIMITER_MAP[line_delimiter_text]
+            else:
                 raise errors.InterfaceError(
                     "line delimiter %s must be changed to one of: %s"
                     % (_compat.text_repr(value), _tools.human_readable_list(self._VALID_LINE_DELIMITER_TEXTS)),
